@@ -107,7 +107,10 @@ let judge op args got =
       let v0 = z (arg 2) in
       let v = if signed then v0 else Zar.abs v0 in
       let spec_le = if signed then Model.to_signed_le_bytes_spec v else Model.to_le_bytes_spec v in
-      let asis_le = if signed then Model.to_signed_le_bytes_asis w64 v else Model.to_le_bytes_asis w64 v in
+      (* the as-is model of the function actually called: the big-endian functions have their own models *)
+      let asis_own = (match signed, le with
+        | true, true -> Model.to_signed_le_bytes_asis w64 v | false, true -> Model.to_le_bytes_asis w64 v
+        | true, false -> Model.to_signed_be_bytes_asis w64 v | false, false -> Model.to_be_bytes_asis w64 v) in
       let ord l = if le then l else List.rev l in
       let want = "ok " ^ tok_of_bytes (ord spec_le) ^ " " ^ hx v in
       (match got with
@@ -116,7 +119,7 @@ let judge op args got =
            let dec = (match signed, le with
              | true, true -> Model.le_signed_value bs | true, false -> Model.be_signed_value bs
              | false, true -> Model.le_value bs | false, false -> Model.be_value bs) in
-           let fid = same (tok_of_bytes (ord asis_le) = b) in
+           let fid = same (tok_of_bytes asis_own = b) in
            let minimal = signed || b = tok_of_bytes (ord spec_le) in
            if Zar.equal dec v && back = hx v && minimal then pass ~extra:fid () else fail want
        | _ -> fail want)
@@ -126,8 +129,9 @@ let judge op args got =
       let spec = (match signed, le with
         | true, true -> Model.le_signed_value bs | true, false -> Model.be_signed_value bs
         | false, true -> Model.le_value bs | false, false -> Model.be_value bs) in
-      let bl = if le then bs else List.rev bs in
-      let asis = if signed then Model.from_signed_le_bytes_asis w64 bl else Model.from_le_bytes_asis w64 bl in
+      let asis = (match signed, le with
+        | true, true -> Model.from_signed_le_bytes_asis w64 bs | false, true -> Model.from_le_bytes_asis w64 bs
+        | true, false -> Model.from_signed_be_bytes_asis w64 bs | false, false -> Model.from_be_bytes_asis w64 bs) in
       expect ~extra:(same (Zar.equal asis spec)) ("ok " ^ hx spec) got
   | "to_chunks" ->
       let v = z (arg 0) and cb = Zar.of_string_base 16 (arg 1) in
